@@ -257,8 +257,11 @@ func (g *gen) operands(d, n int) []*x.Ex {
 		default:
 			if i == 0 {
 				out[i] = g.boolean(d)
+				if r.Chance(1, 3) {
+					out[i] = x.Un("not", x.Un("not", lib.Pick(r, []*x.Ex{g.col("int"), g.col("int"), g.col("dec"), g.col("bool")})))
+				}
 			} else {
-				out[i] = lib.Pick(r, []*x.Ex{x.Lit(x.Int(1), "bool"), x.Lit(x.Int(0), "bool"), x.Lit(x.Int(1), "int"), x.Lit(x.Int(0), "int"), g.col("bool")})
+				out[i] = lib.Pick(r, []*x.Ex{x.Lit(x.Int(1), "bool"), x.Lit(x.Int(0), "bool"), x.Lit(x.Int(1), "int"), x.Lit(x.Int(0), "int"), x.Lit(x.Int(2), "int"), g.col("bool")})
 			}
 		}
 	}
@@ -299,6 +302,19 @@ func (g *gen) boolean(d int) *x.Ex {
 	case 9:
 		return x.Bin("xor", "", g.cond(d-1), g.cond(d-1))
 	case 10, 11:
+		if r.Chance(1, 4) {
+			// double negation, also of non-boolean operands
+			var c *x.Ex
+			switch r.Intn(3) {
+			case 0:
+				c = g.num(d - 1)
+			case 1:
+				c = g.dec()
+			default:
+				c = g.cond(d - 1)
+			}
+			return x.Un("not", x.Un("not", c))
+		}
 		e := x.Un("not", g.cond(d-1))
 		e.Alt = r.Bool()
 		return e
@@ -360,8 +376,62 @@ func (g *gen) boolean(d int) *x.Ex {
 	}
 }
 
+// indexShape: disjunctions / conjunctions of range comparisons and IS NULL on one indexed nullable column, with
+// the bound taken from the value pool (so that some row has exactly that value).
+func (g *gen) indexShape() *x.Ex {
+	r := g.r
+	var c *x.Ex
+	var k, k2 *x.Ex
+	switch r.Intn(4) {
+	case 0, 1:
+		c = x.Col(0, "a", "int")
+		k, k2 = x.Lit(x.Int(lib.Pick(r, intPool)), "int"), x.Lit(x.Int(lib.Pick(r, intPool)), "int")
+	case 2:
+		c = x.Col(1, "b", "int")
+		k, k2 = x.Lit(x.Int(lib.Pick(r, intPool)), "int"), x.Lit(x.Int(lib.Pick(r, intPool)), "int")
+	default:
+		c = x.Col(4, "s", "str")
+		k, k2 = x.Lit(x.Str(lib.Pick(r, strPool)), "str"), x.Lit(x.Str(lib.Pick(r, strPool)), "str")
+	}
+	cmp := func(op string, b *x.Ex) *x.Ex { cc := *c; return x.Bin("cmp", op, &cc, b) }
+	isnull := func() *x.Ex { cc := *c; return x.Un("isnull", &cc) }
+	not := func(e *x.Ex) *x.Ex { return x.Un("not", e) }
+	or := func(a, b *x.Ex) *x.Ex { return x.Bin("or", "", a, b) }
+	and := func(a, b *x.Ex) *x.Ex { return x.Bin("and", "", a, b) }
+	ops := []string{"<=", ">=", "<", ">", "="}
+	op := lib.Pick(r, ops)
+	var rng *x.Ex
+	switch r.Intn(6) {
+	case 0, 1:
+		rng = cmp(op, k)
+	case 2:
+		rng = not(cmp(lib.Pick(r, []string{">", "<", ">=", "<="}), k))
+	case 3:
+		rng = &x.Ex{K: "between", A: []*x.Ex{c, k, k2}}
+	case 4:
+		rng = or(cmp("<", k), cmp("=", k))
+	default:
+		rng = and(cmp(">=", k), cmp("<=", k2))
+	}
+	switch r.Intn(6) {
+	case 0, 1:
+		return or(rng, isnull())
+	case 2:
+		return or(isnull(), rng)
+	case 3:
+		return and(rng, not(isnull()))
+	case 4:
+		return or(rng, cmp(lib.Pick(r, ops), k2))
+	default:
+		return rng
+	}
+}
+
 func genCase(r *lib.RNG, rows [][]x.Val) caseT {
 	g := &gen{r: r, raw: r.Chance(1, 3)}
+	if r.Chance(1, 6) {
+		return caseT{Rows: rows, Indexed: r.Chance(3, 4), P: g.indexShape()}
+	}
 	var p *x.Ex
 	switch r.Intn(12) {
 	case 0:
@@ -417,7 +487,18 @@ func features(p *x.Ex, rows [][]x.Val) []string {
 			}
 		}
 	}
-	hasNB, hasRewrite := false, false
+	// a Boolean-typed operand whose value is a TINYINT(1) column holding something else than 0/1
+	var nbOperand func(e *x.Ex) bool
+	nbOperand = func(e *x.Ex) bool {
+		switch e.K {
+		case "col":
+			return e.T == "bool" && nonBool[e.I]
+		case "case":
+			return x.TyOf(e) == "bool" && (nbOperand(e.A[1]) || nbOperand(e.A[2]))
+		}
+		return false
+	}
+	nbRewrite := false
 	scaleMix := func(es []*x.Ex) bool {
 		sc := map[int]bool{}
 		for _, e := range es {
@@ -432,20 +513,18 @@ func features(p *x.Ex, rows [][]x.Val) []string {
 		}
 		return len(sc) > 1
 	}
-	mixBetween, mixIn := false, false
+	mixBetween, mixIn, inIntFirst := false, false, false
 	p.Walk(func(n *x.Ex) {
 		switch n.K {
-		case "col":
-			if nonBool[n.I] {
-				hasNB = true
-			}
 		case "and", "or":
-			if n.A[0].K == "lit" || n.A[1].K == "lit" || closedEx(n.A[0]) || closedEx(n.A[1]) {
-				hasRewrite = true
+			// (literal AND/OR x) => x  when x is Boolean-typed
+			if (closedEx(n.A[0]) && nbOperand(n.A[1])) || (closedEx(n.A[1]) && nbOperand(n.A[0])) {
+				nbRewrite = true
 			}
 		case "not":
-			if n.A[0].K == "not" {
-				hasRewrite = true
+			// NOT NOT x => x  when x is Boolean-typed
+			if n.A[0].K == "not" && nbOperand(n.A[0].A[0]) {
+				nbRewrite = true
 			}
 		case "between":
 			if scaleMix(n.A) {
@@ -455,9 +534,18 @@ func features(p *x.Ex, rows [][]x.Val) []string {
 			if scaleMix(n.A) {
 				mixIn = true
 			}
+			// HashInTuple takes its comparison type from the left operand and the first element only
+			intLike := func(t string) bool { return t == "int" || t == "bool" }
+			if len(n.A) > 2 && intLike(x.TyOf(n.A[0])) && intLike(x.TyOf(n.A[1])) {
+				for _, el := range n.A[2:] {
+					if x.TyOf(el) == "dec" {
+						inIntFirst = true
+					}
+				}
+			}
 		}
 	})
-	if hasNB && hasRewrite {
+	if nbRewrite {
 		fs = append(fs, "tinyint1-nonboolean-value-under-and-or-not-rewrite")
 	}
 	if mixBetween {
@@ -465,6 +553,9 @@ func features(p *x.Ex, rows [][]x.Val) []string {
 	}
 	if mixIn {
 		fs = append(fs, "in-decimal-scale-mix")
+	}
+	if inIntFirst {
+		fs = append(fs, "in-list-integer-first-element-then-decimal")
 	}
 	return fs
 }
@@ -760,6 +851,13 @@ func corpus() []caseT {
 	// known: IN in the select list rounds the element to the column's scale, the hashed IN of the filter does not
 	add(&x.Ex{K: "in", A: []*x.Ex{dd, x.Lit(x.Dec(1495, 3), "dec")}})
 	add(x.Bin("and", "", x.Bin("cmp", "<", x.Bin("arith", "+", a, b), li(5)), x.Un("isnull", dd)))
+	// range or NULL on the indexed nullable column, bound equal to a stored value
+	add(x.Bin("or", "", x.Bin("cmp", "<=", a, li(1)), x.Un("isnull", a)))
+	add(x.Bin("or", "", x.Un("isnull", a), x.Un("not", x.Bin("cmp", ">", a, li(3)))))
+	// double negation of a non-boolean operand inside a comparison
+	add(x.Bin("cmp", "=", x.Un("not", x.Un("not", b)), li(1)))
+	// known: hashed IN takes the comparison type from the first element (1.500 is rounded to 2)
+	add(&x.Ex{K: "in", A: []*x.Ex{b, li(0), x.Lit(x.Dec(1500, 3), "dec")}})
 	return out
 }
 
